@@ -244,6 +244,12 @@ def observe(case):
         from types import MethodType
         opt.objective = MethodType(opt._objective(), opt)
     res['objective'] = float(opt.objective(xin.copy()))
+    if case['kind'] in ('itc', 'idtc', 'icaekl'):
+        # BaseIntrinsicMutualInformation.optimize keeps the best of the constant channel (the unconditional measure),
+        # the copy channel (the measure given Z) and the optimiser's result: the source of the upper bounds
+        res['obj_const'] = float(opt.objective(opt.construct_constant_initial()))
+        res['obj_copy'] = float(opt.objective(opt.construct_copy_initial()))
+        res['copy_exact'] = bool(opt._aux_vars[0].bound >= opt._pmf.shape[-1])
     nv = J.ndim
     # the tensor functionals on random queries
     rs = np.random.RandomState(case['xseed'] + 1)
@@ -511,6 +517,16 @@ def to_coq(case, o):
     elif case['kind'] == 'hyper':
         # -(I[U:Y] / I[U:X]), inf when the denominator is close to zero: cross-multiplied
         pass
+    if 'obj_const' in o and case['kind'] in ('itc', 'idtc') and not big:
+        f = 'tc_data' if case['kind'] == 'itc' else 'dtc_data'
+        rvl = nll([[i] for i in range(ng - 1)])
+        add(okd('%s %s %d%%nat %s []%%nat' % (f, B, ng, rvl), o['obj_const'], T9), 'objective at the constant channel = the unconditional measure of the input')
+        if o['copy_exact']:
+            add(okd('%s %s %d%%nat %s %s' % (f, B, ng, rvl, nl([ng - 1])), o['obj_copy'], T9), 'objective at the copy channel = the measure given the conditioning variables')
+        if case['xkind'] == 'optimum' and o['objective'] > min(o['obj_const'], o['obj_copy']) + 1e-9:
+            item['pyviolation'] = 'returned optimum %r exceeds the constant / copy channels %r %r' % (o['objective'], o['obj_const'], o['obj_copy'])
+        if o['objective'] < -1e-9:
+            item['pyviolation'] = 'negative intrinsic measure %r' % o['objective']
     ex = o.get('extra', {})
     if 'rate' in ex:
         add(okd('cmi_data15 %s %d%%nat [0]%%nat [2]%%nat [1]%%nat' % (J, nv), ex['rate'], T9), 'rate = I[X:T|Z]')
